@@ -239,6 +239,7 @@ class Coop(object):
         self.fuel      = fuel
         self.steps     = 0
         self.log       = []
+        self.current   = None
 
     def _runnable(self, start):
         n = len(self.threads)
@@ -253,6 +254,7 @@ class Coop(object):
         blocked_in_row = 0
         while cur is not None:
             name, gen, _ = self.threads[cur]
+            self.current = name
             self.fuel -= 1
             if self.fuel < 0:
                 raise Deadlock('out of fuel (livelock?)')
